@@ -45,6 +45,21 @@ func (t *Transpose) Init(n *onnx.NodeProto) error {
 
 // Apply applies the transpose operator.
 func (t *Transpose) Apply(inputs []tensor.Tensor) ([]tensor.Tensor, error) {
+	rank := len(inputs[0].Shape())
+	if len(t.perm) != 0 && len(t.perm) != rank {
+		return nil, ops.ErrInvalidInput("perm must have one entry per input dimension", t)
+	}
+
+	seen := make([]bool, rank)
+
+	for _, ax := range t.perm {
+		if ax < 0 || ax >= rank || seen[ax] {
+			return nil, ops.ErrInvalidInput("perm must be a permutation of the input dimensions", t)
+		}
+
+		seen[ax] = true
+	}
+
 	out, err := tensor.Transpose(inputs[0], t.perm...)
 	if err != nil {
 		return nil, err
